@@ -265,36 +265,11 @@ def itzhack(chk, prog):
         chk.error("itzhack post-processing (np.roll(q, 1); q[0] *= -1) not recognised")
 
 
-def _all_nan(v):
-    """np.array([np.nan]*4), np.array([np.nan, ...]), np.full(n, np.nan), np.full_like(x, np.nan), np.nan*np.ones(n), np.ones(n)*np.nan"""
-    def is_nan(e):
-        return ast.unparse(e) in ("np.nan", "numpy.nan", "np.NaN", "float('nan')", "math.nan")
-    if isinstance(v, ast.Call):
-        fn = ast.unparse(v.func).split(".")[-1]
-        if fn in ("full", "full_like") and len(v.args) >= 2 and is_nan(v.args[1]):
-            return True
-        if fn in ("array", "asarray") and v.args:
-            a = v.args[0]
-            if isinstance(a, ast.BinOp) and isinstance(a.op, ast.Mult) and isinstance(a.left, ast.List) and a.left.elts and all(is_nan(e) for e in a.left.elts):
-                return True
-            if isinstance(a, (ast.List, ast.Tuple)) and a.elts and all(is_nan(e) for e in a.elts):
-                return True
-    if isinstance(v, ast.BinOp) and isinstance(v.op, ast.Mult):
-        for x, y in ((v.left, v.right), (v.right, v.left)):
-            if is_nan(x) and isinstance(y, ast.Call) and ast.unparse(y.func).split(".")[-1] in ("ones", "ones_like"):
-                return True
-    return False
+from sa.lints import nan_echo as _nan_echo_stmt
 
 
 def _nan_echo(f, stmt):
-    """the return statement hands back an all-NaN array and sits directly under `if <... isnan(<a parameter>) ...>:`"""
-    if not _all_nan(stmt.value):
-        return False
-    for n in ast.walk(f.node):
-        if isinstance(n, ast.If) and stmt in n.body:
-            return any(isinstance(c, ast.Call) and ast.unparse(c.func).split(".")[-1] == "isnan" and
-                       any(isinstance(a, ast.Name) and a.id in f.params for a in ast.walk(c)) for c in ast.walk(n.test))
-    return False
+    return _nan_echo_stmt(f, stmt)
 
 
 def unit_real(chk, prog):
